@@ -106,15 +106,16 @@ def check_labels(case):
     if what == 'set_hier':
         if k0 == k1:
             raise Discard('needs two key columns')
-        if m == 2:
+        if m == 2 and case['axis']:
             raise Discard('no data column would remain')
         keys = [(r[k0], r[k1]) for r in rows]
         if len({_hk(t) for t in keys}) != n:
             raise Discard('duplicate hierarchical keys')
-        r = lib(lambda: f.set_index_hierarchy([labels[k0], labels[k1]], drop=True, reorder_for_hierarchy=True))
+        drop = bool(case['axis'])  # reuse the spare draw: both drop modes
+        r = lib(lambda: f.set_index_hierarchy([labels[k0], labels[k1]], drop=drop, reorder_for_hierarchy=True))
         if isinstance(r, Raised):
-            raise Failure('raised:%s' % r.cls, 'set_index_hierarchy raised %r' % r.exc, r.where)
-        keep = [l for j, l in enumerate(labels) if j not in (k0, k1)]
+            raise Failure('raised:%s' % r.cls, 'set_index_hierarchy(drop=%s) raised %r' % (drop, r.exc), r.where)
+        keep = [l for j, l in enumerate(labels) if (j not in (k0, k1) or not drop)]
         got = {}
         gl = obs.labels_of(r.index)
         grows = rows_of(r, keep) if keep else [()] * n
